@@ -12,45 +12,47 @@ func jsonUnmarshal(b []byte, v interface{}) error { return json.Unmarshal(b, v) 
 
 // Evidence aggregates what a check run actually covered.
 type Evidence struct {
-	tier       string
-	seed       uint64
-	build      *Build
-	Runs       int
-	PlainRuns  int
-	RaceRuns   int
-	ColdRuns   int
-	Batches    int
-	Steps      uint64
-	Switches   uint64
-	Inflight   uint64
-	Ops        int
-	LibOps     int
-	Skipped    int
-	Errs       int
-	Panics     int
-	Faults     map[string]int
-	sigs       map[string]bool
-	allSigs    map[string]bool
-	sites      map[int]bool
-	pairs      map[int]bool
-	numSites   int
-	numLabels  int
-	byStrat    map[string]int
-	byGran     map[string]int
-	byMode     map[string]int
-	byTasks    map[int]int
-	opCounts   map[string]map[string]int
-	Divergent  int
-	LoadRaces  int
-	ProbeN     int
-	probeEx    []Violation
-	samples    []interface{}
-	Violations int
-	wall       float64
-	workerS    float64
-	slowest    float64
-	seedsUsed  []uint64
-	sampleRefs []sampleRef
+	tier        string
+	seed        uint64
+	build       *Build
+	Runs        int
+	PlainRuns   int
+	RaceRuns    int
+	ColdRuns    int
+	Batches     int
+	Steps       uint64
+	Switches    uint64
+	Inflight    uint64
+	Ops         int
+	LibOps      int
+	Skipped     int
+	Errs        int
+	Panics      int
+	Faults      map[string]int
+	sigs        map[string]bool
+	allSigs     map[string]bool
+	sites       map[int]bool
+	pairs       map[int]bool
+	numSites    int
+	numLabels   int
+	byStrat     map[string]int
+	byGran      map[string]int
+	byMode      map[string]int
+	byTasks     map[int]int
+	opCounts    map[string]map[string]int
+	Divergent   int
+	LoadRaces   int
+	ProbeN      int
+	probeEx     []Violation
+	samples     []interface{}
+	Violations  int
+	wall        float64
+	workerS     float64
+	slowest     float64
+	seedsUsed   []uint64
+	sampleRefs  []sampleRef
+	canaryProcs int
+	canaryKeys  int
 }
 
 type sampleRef struct {
@@ -143,6 +145,10 @@ func (e *Evidence) addBatch(r *BatchResult) {
 		}
 		for _, p := range r.End.Pairs {
 			e.pairs[p] = true
+		}
+		if len(r.End.Canary) > 0 {
+			e.canaryProcs++
+			e.canaryKeys = len(r.End.Canary)
 		}
 		for op, m := range r.End.OpCounts {
 			if e.opCounts[op] == nil {
@@ -292,6 +298,8 @@ func (e *Evidence) write(path string) error {
 			"inflight_op_pairs_reached":          len(e.pairs),
 			"inflight_op_pair_space":             e.numLabels * e.numLabels,
 			"executed_operations_by_kind":        e.opCounts,
+			"canary_processes_compared":          e.canaryProcs,
+			"canary_digests_per_process":         e.canaryKeys,
 			"runs_by_strategy":                   e.byStrat,
 			"runs_by_granularity":                e.byGran,
 			"runs_by_mode":                       e.byMode,
